@@ -953,7 +953,7 @@ func main() {
 
 	nDocs, coqBudget, leafCap := 28, 1300, 30
 	if args.Tier == "thorough" {
-		nDocs, coqBudget, leafCap = 250, 12000, 120
+		nDocs, coqBudget, leafCap = 150, 9000, 100
 	}
 
 	g := &gen{rng: rng.Fork(1), w: w}
